@@ -383,7 +383,14 @@ def check_flag_type(ctx, g, crate, lpath, wflag, zero_valid, rule_prefix, key0, 
                 bev.extra = extra
                 if group is not None and kind == "set":
                     # inner |= member.as_int()
-                    cur, flds = eval_mutator_group(bev, fn)
+                    try:
+                        cur, flds = eval_mutator_group(bev, fn)
+                    except Unk:
+                        # not the plain two-statement form: decide the setter by interpreting it for every (previous member, new member) pair
+                        why = group_set_semantic(g, crate, fn, rest, w, opt_fields)
+                        if why:
+                            viol(mname, why, fn)
+                        continue
                 else:
                     cur, flds = eval_mutator(bev, fn, opt_fields)
                 if kind == "set":
@@ -429,6 +436,53 @@ def check_flag_type(ctx, g, crate, lpath, wflag, zero_valid, rule_prefix, key0, 
                 if k not in got:
                     viol(f"{k}_{lname(en)}", f"missing for enumerator {en}")
     return n
+
+
+def group_set_semantic(g, crate, fn, member, w, opt_fields):
+    """set_<member>(self, new): for every previous state of the else-if group (None or any variant) and two raw values, the result
+    must be inner | bits(new) with the member holding `new` - 'set adds exactly that enumerator's bits, leaving every other bit unchanged'"""
+    from ..minieval import Mini, Panic, Unsupported, Tok
+    from ..facts import facts
+    F = g.f(crate)
+    FB = {c: facts(c) for c in ("wow_world_messages", "wow_world_base", "wow_login_messages")}
+    sty = fn["inputs"][0].lstrip("&").replace("mut ", "")
+    pty = fn["inputs"][1]
+    adt = F.adt(pty)
+    if adt is None or adt["kind"] != "Enum":
+        return f"shape not recognised — review (parameter type {pty} is not an enum)"
+    ai = pty + "::as_int"
+    variants = []
+    tok = [5000]
+    for vname, _disc, vfields in adt["variants"]:
+        flds = {}
+        for f in vfields:
+            tok[0] += 1
+            flds[f[0]] = Tok(tok[0], "any")
+        variants.append(("struct", pty + "::" + vname, flds) if vfields else ("variant", (crate + "::" + pty[len("crate::"):]) if pty.startswith("crate::") else pty + "::" + vname))
+    variants = [v if v[0] == "struct" else ("variant", v[1] if v[1].endswith("::" + adt["variants"][i][0]) else v[1] + "::" + adt["variants"][i][0]) for i, v in enumerate(variants)]
+    try:
+        bits = [Mini(FB, crate).call_fn(ai, [v]) for v in variants]
+        for oi, old in enumerate([None] + variants):
+            for ni, new in enumerate(variants):
+                for raw in ({0} | {(bits[oi - 1] if old is not None else 0), (1 << w) - 1}):
+                    inner0 = raw | (bits[oi - 1] if old is not None else 0)
+                    obj = ("struct", sty, dict({f: "None" for f in opt_fields}, inner=inner0))
+                    obj[2][member] = ("Some", old) if old is not None else "None"
+                    r = Mini(FB, crate).call_fn(fn["path"], [obj, new])
+                    r = r if isinstance(r, tuple) and r and r[0] == "struct" else obj
+                    want = inner0 | bits[ni]
+                    oname = old[1].split("::")[-1] if old is not None else "no member"
+                    nname = new[1].split("::")[-1]
+                    if r[2]["inner"] != want:
+                        lost = want & ~r[2]["inner"]
+                        return (f"set_{member}({nname}) on a value with {oname} present and inner = {inner0:#x} gives inner = {r[2]['inner']:#x}; specification: inner | {bits[ni]:#x} = {want:#x}"
+                                f"{' (bits ' + hex(lost) + ' are lost: the flag says the member is absent although its payload is stored)' if lost else ''}")
+                    got_m = r[2].get(member)
+                    if not (isinstance(got_m, tuple) and got_m[0] == "Some" and got_m[1] is new or got_m == ("Some", new)):
+                        return f"set_{member}({nname}) does not store the new member"
+    except (Unsupported, Panic, KeyError, TypeError) as e:
+        return f"shape not recognised — review ({type(e).__name__}: {e})"
+    return None
 
 
 def eval_mutator_group(bev, fn):
